@@ -300,7 +300,9 @@ func (w *simWorld) newSimNode(idx int, spec *nodeSpec) (*simNode, error) {
 	lh.handshakeTrigger = hm.trigger
 	var ds *dnsServer
 	if w.withDNS {
-		ds, _ = newDnsServerFromConfig(ctx, l, pki, hostMap, c)
+		// (a context that is not live: a reload that switches serve_dns on calls Start, which then returns before
+		// opening a socket; records, queries and reload handling do not depend on the context)
+		ds, _ = newDnsServerFromConfig(dead, l, pki, hostMap, c)
 	}
 	ifc := &InterfaceConfig{
 		HostMap: hostMap, Inside: tun, Outside: conn, pki: pki, Firewall: fw, DnsServer: ds,
